@@ -16,6 +16,9 @@ S->C : Gen_Pipeline exports one shortest witness program per abstract
        without --ignore-scaling, --input-min/--input-max, chunk-aligned zero
        background and all-zero volumes, anisotropy, thick slices, 1-3 scales,
        orientation codes, layouts flat/gzip, sharding), plus directed programs
+       (sharded datasets on chunk grids that are not powers of two with
+       several bit triples; compressed_segmentation without --type
+       segmentation; compute-scales re-run after a failed run) and programs
        of the environment class "obstructed destination" (a regular file where
        the last scale's directory must be created, plain and sharded),
        snapshotting exit code, info files and all decoded chunks after every
@@ -270,6 +273,72 @@ def select(ctx, behs, n):
     return chosen[:max(n, sum(want.values()))], {k: len(v) for k, v in by.items()}   # never drop a stratum's minimum
 
 
+def directed_programs(ctx):
+    """Option sets / input classes the exported alphabet does not span:
+      - sharded datasets whose chunk grid is NOT a power of two on at least two axes, several
+        chunks per axis (--target-chunk-size 8), with the bit triples 1,1,0 / 2,1,0 / 2,2,0 /
+        0,0,0 / 3,0,0, through the real command lines (default on-disk buffering of the writer);
+      - --encoding compressed_segmentation WITHOUT --type segmentation (the info type stays
+        "image"), default downscaling method: all-in-one versus steps (clause (a));
+      - compute-scales run again after a run that failed half way (one input chunk hidden, then
+        restored): exit 0 means complete."""
+    C = pd.cmd
+    rng = ctx.rng
+    out = []
+
+    def prog(vol, cmds, **kw):
+        p = {"vol": vol, "cmds": cmds, "lay": {"A": rng.choice(list(pd.LAYOUTS)), "B": rng.choice(list(pd.LAYOUTS))},
+             "explicit": rng.random() < 0.4, "seed": rng.randrange(1 << 30), "docs_shflag": rng.random() < 0.6,
+             "shard_enc": rng.choice(["gzip", "raw"]), "feat": {"env": "directed"}}
+        p.update(kw)
+        return p
+
+    def vol(shape, voxel, dtype="uint8", tgt=64, **kw):
+        v = {"shape": shape, "voxel": voxel, "dtype": dtype, "kind": kw.pop("kind", "noise"), "perfect": True,
+             "nall": min(3, pd.n_levels(shape, voxel, tgt))}
+        v.update(kw)
+        return v
+
+    iso = [1.0, 1.0, 1.0]
+    gen = lambda sh, typ="image", enc="raw", mx="all": [
+        C("GenInfo", "A", sh=sh), C("GenScales", "A", src="A", type=typ, enc=enc, max=mx)]
+    # sharded, chunk grids 3x3x3 / 3x2x1 / 3x3x2 at the full resolution
+    triples = [[1, 1, 0], [2, 1, 0], [2, 2, 0], [0, 0, 0], [3, 0, 0]]
+    shapes = [[20, 19, 18], [20, 12, 5], [18, 20, 12]]
+    if not ctx.quick:
+        triples += [[1, 2, 1], [3, 1, 0], [0, 3, 0], [2, 0, 2]]
+        shapes += [[12, 20, 19], [5, 20, 12], [23, 17, 9]]
+    k = 0
+    for tr in triples:
+        for shape in (shapes if not ctx.quick else [shapes[k % 2], shapes[(k + 1) % 3]]):
+            k += 1
+            v = vol(shape, iso, ["uint8", "uint16"][k % 2], tgt=8)
+            cmds = gen("s110") + [C("Vol", "A"), C("Compute", "A", m=["auto", "stride"][k % 2]), C("Stats", "A")]
+            if k % 2:
+                cmds += [C("Convert", "B", src="A", copy="copy")]
+            else:
+                cmds += [C("Vol", "A"), C("Compute", "A", m="stride")]
+            out.append(prog(v, cmds, tgt=8, shard_triple=tr, lay={"A": "deep-gz", "B": "deep-gz"}))
+    # compressed_segmentation without --type segmentation: all-in-one versus steps
+    for n, (dt, shape, voxel) in enumerate([("uint32", [rng.randint(257, 300), 3, 2], [1.0, 2.0, 4.0]),
+                                            ("uint8", [rng.randint(140, 250), 4, 3], [1.0, 4.0, 4.0]),
+                                            ("uint64", [rng.randint(257, 290), 3, 3], [1.0, 1.0, 1.0])]):
+        v = vol(shape, voxel, dt, kind="labels")
+        aio = [C("AllInOne", "A", type="image", enc="compressed_segmentation", m="auto")]
+        steps = [C("GenInfo", "B", sh="nosh"),
+                 C("GenScales", "B", src="B", type="image", enc="compressed_segmentation", max="all"),
+                 C("Vol", "B"), C("Compute", "B", m="auto")]
+        out.append(prog(v, (aio + steps) if n % 2 == 0 else (steps + aio), explicit=False))
+    # compute-scales again after a run that failed while writing the last scale
+    for n, (shape, tgt, dt) in enumerate([([70, 10, 8], 16, "uint8"), ([150, 7, 5], 32, "uint16")]):
+        v = vol(shape, iso, dt, tgt=tgt)
+        v["nall"] = min(v["nall"], 2)
+        out.append(prog(v, gen("nosh", mx="two") + [C("Vol", "A"), C("Damage", "A", m="hide"),
+                                                    C("Compute", "A", m="auto"), C("Restore", "A"),
+                                                    C("Compute", "A", m="auto"), C("Stats", "A")], tgt=tgt))
+    return out
+
+
 def obstructed_programs(ctx):
     """ENVIRONMENT class "obstructed destination": a regular file occupies the path of the last
     scale's directory (plain and sharded datasets) before the data-writing commands run.  The
@@ -413,7 +482,9 @@ def run(ctx):
         ctx.notes["strata_selected"][k] = ctx.notes["strata_selected"].get(k, 0) + 1
     env_progs = obstructed_programs(ctx)
     ctx.notes["obstructed_destination_programs"] = len(env_progs)
-    progs += env_progs
+    directed = directed_programs(ctx)
+    ctx.notes["directed_programs"] = len(directed)
+    progs += env_progs + directed
     res = pc.run_and_judge(ctx, progs, workers=12, chunk=120, label="gen")
     agree = 0
     for p, case, (st, clause, pos) in res:
